@@ -24,13 +24,20 @@ func init() {
 			"F2 46 first bytes (every type with flag nibbles 0 and 2, PUBLISH with all 16) x every body of length <=5 (quick) / <=6 (thorough) over the 12-byte alphabet {00,01,02,03,04,05,0b,1f,26,7f,80,ff} with a consistent remaining length, bodies <=4 also directly to UnmarshalBinary; " +
 			"F3 every prefix of every frame of the valid corpus V (stream ends; remaining length rewritten; body prefix to UnmarshalBinary); F4 every frame of V x every length field of its field map (remaining length, property length, string/binary prefixes, varints) x {-2,-1,+1,+2,0,1,max,max-1..max-4,7f,80,ff,100,3fff,4000,7fff,8000}; F5 every other type nibble x every body of V; F6 every frame of V with one more property (each of the 27 defined identifiers, zero and non-zero value) inserted at every property boundary of every property section, lengths kept consistent (duplicates, second occurrences of other lengths, properties foreign to the packet); F7 every frame of V with every single body byte replaced by each letter of the 12-byte alphabet (quick) / by every other value (thorough). " +
 			"F8 the frames of the dense strata (every length 0..300 of every field from three bases, pairs of lengths, identifiers over a 7-bit-group alphabet, 43 filter contents x all 256 option bytes x placement). The framing-level families (F1 streams of 2 bytes, F3 stream prefixes, V itself) are also read through six further reader implementations (bufio with a 16-byte buffer, own type with Peek/Discard, LimitedReader, own type with an unrelated Len(), bytes.Buffer, strings.Reader). " +
+			"Endless streams: every prefix of 1-2 bytes followed by 80, ff or 00 for ever must make ReadPacket return within a step budget. " +
 			"Oracle: no panic; ReadPacket returns exactly one of packet / error. distinct_nontrivial = distinct inputs (content hash) that got past the fixed header (a body was decoded).",
 		Assumptions: []string{
 			"inputs that exceed the step budget are counted and left to C05 (termination); they are not panics",
 			"body contents beyond the 12-letter alphabet are reached only through V's mutations",
 		},
-		Run:    runC04,
-		Replay: func(c core.Case) *core.Finding { f, _ := c04Exec(rawFromCase(c)); return f },
+		Run: runC04,
+		Replay: func(c core.Case) *core.Finding {
+			if c.Harness == "c04.endless" {
+				return c04Endless(unhex(c.Frame), byte(paramInt(c.Params, "byte")))
+			}
+			f, _ := c04Exec(rawFromCase(c))
+			return f
+		},
 	})
 }
 
@@ -76,6 +83,26 @@ func c04Exec(c *rawCase) (*core.Finding, bool) {
 	return nil, past
 }
 
+// c04Endless: prefix, then the byte e for ever.
+func c04Endless(prefix []byte, e byte) *core.Finding {
+	resetGlobals()
+	r := &env.Reader{Data: prefix, Endless: &e}
+	// a frame may legitimately announce up to 256 MB and read them; the
+	// prefixes here are chosen so that the header either ends early (00) or
+	// runs into the five-byte limit (80, ff), except when the second prefix
+	// byte already terminates the length: then the body is that long
+	p, err, res := readPacket(r, 5_000_000)
+	switch {
+	case res.Panic != "":
+		return &core.Finding{Class: "panic:" + res.PanicClass, Detail: fmt.Sprintf("ReadPacket(% x followed by %02x for ever) panicked: %s", prefix, e, res.Panic)}
+	case res.Budget:
+		return &core.Finding{Class: "does-not-return/endless-stream", Detail: fmt.Sprintf("ReadPacket(% x followed by %02x for ever) did not return within 5 000 000 statement points (%d bytes beyond the prefix were delivered)", prefix, e, r.Surplus)}
+	case (p == nil) == (err == nil):
+		return &core.Finding{Class: "packet-xor-error/endless-stream", Detail: fmt.Sprintf("ReadPacket(% x followed by %02x for ever) returned %v, %v", prefix, e, p, err)}
+	}
+	return nil
+}
+
 func clipBytes(b []byte) []byte {
 	if len(b) > 64 {
 		return b[:64]
@@ -89,6 +116,31 @@ func runC04(x *core.Ctx) {
 		maxBody = 6
 	}
 	kinds := []env.Kind{env.KBufio16, env.KRich, env.KLimited, env.KOddLen, env.KBytesBuffer, env.KStringsReader}
+	// a peer that never stops sending: every prefix of at most 2 bytes
+	// followed by an endless run of 80, ff or 00 - ReadPacket must return
+	// (here: within the step budget), whatever it returns
+	for b0 := 0; b0 < 256; b0++ {
+		if !x.Mine() {
+			continue
+		}
+		for l := 1; l <= 2; l++ {
+			for b1 := 0; b1 < 256; b1++ {
+				if l == 1 && b1 > 0 {
+					break
+				}
+				for _, e := range []byte{0x80, 0xff, 0x00} {
+					prefix := []byte{byte(b0), byte(b1)}[:l]
+					x.Eval("endless-stream")
+					if f := c04Endless(prefix, e); f != nil {
+						pp, e := append([]byte{}, prefix...), e
+						x.Report(f, func() core.Case {
+							return core.Case{Harness: "c04.endless", Frame: hexOf(pp), Params: map[string]any{"byte": int(e)}}
+						}, func() *core.Finding { return c04Endless(pp, e) })
+					}
+				}
+			}
+		}
+	}
 	enumRaw(x, maxBody, func(c *rawCase) bool {
 		if c.Direct < 0 && (strings.HasPrefix(c.Stratum, "F3.prefix") || c.Stratum == "V.valid" || c.Stratum == "F1.stream.len2") {
 			// "through any reader": the framing-level families again through
